@@ -182,6 +182,10 @@ def main():
         if getattr(mod, 'CHAOS', True):
             import chaos
             chaos.install(seed)
+            for text, observed, required in chaos.first_use_probe(REPO)[:3]:
+                ctx.fail('concurrent first use of the library: a thread\'s result differs from the single-threaded result', text, observed=observed, required=required,
+                         first_use_probe=True)
+            ctx.count('chaos:first-use-probe')
         mod.run(ctx)
         if getattr(mod, 'CHAOS', True):
             ctx.dist['chaos'] = chaos.stats()
@@ -309,6 +313,11 @@ def do_replay(mod, prop, path):
     if payload.get('kind') != 'failing-input':
         print('replay names a broken obligation/correspondence (%s); re-run ./check %s' % (payload.get('theorem_or_stream'), prop))
         return 2
+    if (payload.get('extra') or {}).get('first_use_probe'):
+        import chaos
+        still = bool(chaos.first_use_probe(REPO, runs=30))
+        print('VIOLATION property=%s replay=%s' % (prop, os.path.relpath(path, VERIF)) if still else 'replay no longer fails')
+        return 1 if still else 0
     rec = (payload.get('extra') or {}).get('chaos')
     if rec:
         # the failure was seen after unrelated calls / with the text handed over in another form: re-create that first
